@@ -374,3 +374,27 @@ LEVEL_TEXT["C16"] = {
     "note": "One process per case on the real 1x16x1 topology; binding modes other than none are only distinguished from 'none'.",
     "technique": "property-based testing (generated source/value combinations vs reference precedence model, one exec'ed process per case)",
 }
+
+def rtmpi(src, q_cases, q_budget, t_cases, t_budget, shards=8):
+    return {"src": src, "flavour": "mpi", "engine": "E-rt",
+            "quick": {"shards": shards, "cases": q_cases, "budget": q_budget, "size": 100},
+            "thorough": {"shards": shards, "cases": t_cases, "budget": t_budget, "size": 100}}
+
+PROPS["C20"] = {
+    "targets": [rtmpi("props/C20_mpi.cpp", 150, 80, 3000, 900)],
+    "rule": "case = batch of 1..4 programs run between one MPI_Init_thread(MPI_THREAD_MULTIPLE) and MPI_Finalize (singleton MPI, rank 0 to rank 0); "
+            "program = completion mode 0..31 (handler method yield_while / suspend_resume / new_task / continuation x request-inline x "
+            "completion-inline x high-priority), 1..6 workers, dedicated polling pool requested or not, polling size in {1,4,8,32}, 1..72 "
+            "Irecv/Isend pairs issued from tasks through transform_mpi (sizes 0 B .. 1 MiB crossing the eager/rendezvous threshold, unique "
+            "tags, receive posted before or after the send, sends in a scattered order), 1..2 sequential enable_polling scopes, pika::wait() "
+            "while requests are in flight; non-trivial iff a program has >=8 pairs, a message >= 70000 B and a mode other than the default; "
+            "distinct by hash",
+    "floor": {"quick": 10, "thorough": 100},
+    "assumptions": ["one rank only (no network in the sandbox): cross-rank ordering is out of reach; MPIX continuations are not available in OpenMPI 4.1.4",
+                    "a lost completion is reported when the matching send has signalled, the receive buffer holds the complete data and nothing at all happened for 3 s"],
+}
+LEVEL_TEXT["C20"] = {
+    "text": "Generated MPI programs (all 32 completion modes, polling pool on/off, polling sizes, 1..72 concurrent self-addressed Irecv/Isend pairs of 0 B..1 MiB, scattered completion order, sequential polling scopes) run on the MPI build of the runtime; oracles: every receive and send sender signals its receiver exactly once, the received buffer equals the sent pattern at continuation time (transfer complete => data visible), pika::wait() does not return while requests are in flight and the MPI work count is 0 afterwards, shutdown does not return earlier; lost completions are caught by a monitor.",
+    "note": "Singleton MPI only; interleavings of pollers and submitters are sampled.",
+    "technique": "property-based testing (generated MPI programs over all completion modes, signal-count and payload oracles)",
+}
